@@ -81,7 +81,8 @@ theorem insert_end (l : List Nat) (b : Nat) :
 theorem iter_printable (sh : Sh) (typed : List Nat) (b : Nat) (rest : List Nat)
     (g : Good sh typed) (hb : printable b) (hbuf : sh.eng.keys.buf = b :: rest) :
     ∃ sh', iter sh = .ok sh' ∧ Good sh' (typed ++ [b]) ∧ sh'.eng.keys.buf = rest ∧
-      sh'.outputMeta = sh.outputMeta := by
+      sh'.outputMeta = sh.outputMeta ∧
+      ∃ a K, sh'.eng = { sh.eng with active := a, prefixed := Bind.none, keys := K } := by
   obtain ⟨hb1, hb2⟩ := hb
   have ht := g.tbl
   obtain ⟨ha1, ha2⟩ := ht.ascii b ⟨hb1, hb2⟩
@@ -111,7 +112,7 @@ theorem iter_printable (sh : Sh) (typed : List Nat) (b : Nat) (rest : List Nat)
     simp [this]
   simp only [runCmd, selfIns, if_true, selfInsert, hq, hca, insert_end, bind, Except.bind, pure,
     Except.pure]
-  refine ⟨_, rfl, ?_, rfl, rfl⟩
+  refine ⟨_, rfl, ?_, rfl, rfl, _, _, rfl⟩
   constructor
   · exact tableOK_congr ht rfl rfl
   · simp [g.line]
@@ -129,7 +130,7 @@ theorem iter_printable (sh : Sh) (typed : List Nat) (b : Nat) (rest : List Nat)
 /-- Return accepts the line as it is -/
 theorem iter_cr (sh : Sh) (typed : List Nat) (rest : List Nat)
     (g : Good sh typed) (hbuf : sh.eng.keys.buf = 13 :: rest) :
-    ∃ sh', iter sh = .ok sh' ∧ sh'.accepted = some typed := by
+    ∃ sh', iter sh = .ok sh' ∧ sh'.accepted = some typed ∧ sh'.outputMeta = sh.outputMeta := by
   have ht := g.tbl
   obtain ⟨ha1, ha2⟩ := ht.cr
   let e0 : Eng := { sh.eng with keys := sh.eng.keys.flushUsed }
@@ -143,8 +144,9 @@ theorem iter_cr (sh : Sh) (typed : List Nat) (rest : List Nat)
   unfold iter
   simp only [show ({ sh.eng with keys := sh.eng.keys.flushUsed } : Eng) = e0 from rfl, hm, hcmd,
     Bool.false_eq_true, if_false, if_true]
-  refine ⟨_, by simp [runCmd, acceptB]; rfl, ?_⟩
-  simp [g.line]
+  refine ⟨_, by simp [runCmd, acceptB]; rfl, ?_, ?_⟩
+  · simp [g.line]
+  · rfl
 
 theorem needRead_iff (sh : Sh) (typed : List Nat) (g : Good sh typed) :
     needRead sh.eng.keys = sh.eng.keys.buf.isEmpty := by
@@ -208,7 +210,7 @@ theorem typed_ascii_returned : ∀ (fuel : Nat) (chunks : List (List Nat)) (sh :
           | nil =>
             have hk : k = 13 := by simp at hall; exact hall.1
             subst hk
-            obtain ⟨sh', h1, h2⟩ := iter_cr (feed sh c) typed t g1 (by rw [hb1, hkt])
+            obtain ⟨sh', h1, h2, _⟩ := iter_cr (feed sh c) typed t g1 (by rw [hb1, hkt])
             rw [h1]
             simp only [bind, Except.bind]
             cases fuel with
@@ -232,7 +234,7 @@ theorem typed_ascii_returned : ∀ (fuel : Nat) (chunks : List (List Nat)) (sh :
       | nil =>
         have hk : k = 13 := by simp at hall; exact hall.1
         subst hk
-        obtain ⟨sh', h1, h2⟩ := iter_cr sh typed t g hb
+        obtain ⟨sh', h1, h2, _⟩ := iter_cr sh typed t g hb
         rw [h1]
         simp only [bind, Except.bind]
         cases fuel with
